@@ -112,6 +112,7 @@ def plan_run(run_seed, prop):
     if plan_pipeline_hint:
         plan["pipeline"] = plan_pipeline_hint
     plan["shared_backend"] = tp.chance(0.25)
+    plan["inject_shifted"] = tp.sample(sorted(k for k in GS.SIGS if GS.has_unitary(k) and "f" in GS.SIGS[k]), tp.randint(1, 3)) if (plan["pipeline"] == "autoload" and tp.chance(0.6)) else None
     if many:
         plan.update(many_shots=many, pipeline="plain", disturb=None, scan=False, rerun=False, sampler_mode="faithful")
     return plan
@@ -214,7 +215,12 @@ def parse_with(plan, text, G, pipeline, scratch=None):
     if pipeline in ("autoload", "run_string", "run_file"):
         # the gate set comes from a pulse-definition module named by the program
         ov = plan["overrides"] or None
-        return parse_jaqal_string(text, autoload_pulses=True, import_path=scratch, expand_let=bool(ov), override_dict=ov)
+        inj = None
+        if pipeline == "autoload" and plan.get("inject_shifted"):
+            # injected definitions (another convention) override the imported ones
+            G1 = GS.build_gateset(shift=1)
+            inj = {k: G1[k] for k in plan["inject_shifted"] if k in G1}
+        return parse_jaqal_string(text, autoload_pulses=True, inject_pulses=inj, import_path=scratch, expand_let=bool(ov), override_dict=ov)
     from jaqalpaq.core.algorithm import expand_macros, fill_in_let, expand_subcircuits
     from jaqalpaq.core.algorithm.fill_in_map import fill_in_map
 
@@ -415,6 +421,7 @@ def execute(plan):
 
     st = Streams(plan["run_seed"], recorded=plan.get("tapes"))
     GS.VARIANT = plan.get("gateset_variant", 0)
+    GS.REF_SHIFT = {k: 1 for k in (plan.get("inject_shifted") or [])} if plan.get("pipeline") == "autoload" else {}
     viol = V()
     probes = {}
     log = []
@@ -683,6 +690,27 @@ def execute(plan):
                 r1 = job.execute()
                 for sc in r1.subcircuits:  # read every view in between
                     list(sc.relative_frequency_by_int), dict(sc.relative_frequency_by_str), dict(sc.simulated_probability_by_str)
+                if plan.get("disturb") and len(M.visits) >= 2:
+                    # an execution abandoned after some shots, between the two complete ones
+                    calls = [0]
+                    stop_at = 1 + int(plan.get("disturb_at", 0.5) * (len(M.visits) - 1))
+
+                    class Abandon(BaseException):
+                        pass
+
+                    def flaky(nn, p=None, **kw):
+                        calls[0] += 1
+                        if calls[0] == stop_at + 1:
+                            raise Abandon()
+                        return s3(nn, p=p, **kw)
+
+                    seams.install_sampler(flaky)
+                    try:
+                        job.execute()
+                    except Abandon:
+                        probe("job_execution_abandoned")
+                    finally:
+                        seams.install_sampler(s3)
                 r2 = job.execute()
                 return r1, r2
             finally:
@@ -793,6 +821,7 @@ def execute(plan):
         # structural part: expand_subcircuits(A) vs B
         check_c09_structure(viol, plan, texts, G, clock, budget, probe)
 
+    GS.REF_SHIFT = {}
     if scratch:
         import shutil, sys
 
@@ -839,12 +868,14 @@ def check_c09_structure(viol, plan, texts, G, clock, budget, probe):
     tA = [t for t in texts if t[0] == "A"][0][1]
     tB = [t for t in texts if t[0] == "B"][0][1]
     before = {}
+    has_kind_sub_before = [False]
     kw = dict(inject_pulses=G, autoload_pulses=False)  # a usepulses line stays pure header data here
     caller = plan["bounding"] == "caller"
 
     def job():
         cA = parse_jaqal_string(tA, **kw)
         cB = parse_jaqal_string(tB, **kw)
+        has_kind_sub_before[0] = has_kind_sub(cA)
         before["hdr"] = extract.header_view(cA, macros=False)  # before: dicts may be shared
         before["gates"] = [(k, id(v)) for k, v in cA.native_gates.items()]
         if caller:
@@ -935,6 +966,17 @@ def check_c09_structure(viol, plan, texts, G, clock, budget, probe):
         if g.name == "measure_all" and g.gate_def is not md and not _in_source(g, cA):
             viol.add("C09", "bounding_gate_definition", "mismatch", "measure")
             break
+    # the same circuit object expanded once more, now with bounding gates named by strings the
+    # table does not know: the first expansion must not have touched its input
+    if has_kind_sub_before[0]:
+        o3 = seams.outcome_of(lambda: expand_subcircuits(cA, prepare_def="prepare_z", measure_def="measure_z"), clock, budget)
+        if o3["kind"] == "ok":
+            names3 = {g.name for g in extract.iter_gates(o3["value"])}
+            if not ({"prepare_z", "measure_z"} <= names3):
+                viol.add("C09", "second_expansion_of_the_same_object", "mismatch", "", "a second expansion with other bounding gates found nothing to expand")
+        elif o3["kind"] != "JaqalError":
+            viol.add("C09", "expand_subcircuits_runs", o3["kind"], o3.get("where", ""), "second expansion: %s" % o3.get("exc"))
+        probe("c09_second_expansion")
     probe("c09_structure")
     # a gate table without prepare_all / measure_all: the bounding gates must be fresh plain
     # definitions of exactly those names, not objects that belong to another circuit
@@ -1008,6 +1050,8 @@ def candidates(plan):
         yield variant(scan=False)
     if plan.get("shared_backend"):
         yield variant(shared_backend=False)
+    if plan.get("inject_shifted"):
+        yield variant(inject_shifted=None)
     if plan.get("disturb"):
         yield variant(disturb=None)
     if plan.get("gateset_variant"):
